@@ -376,7 +376,17 @@ pub fn build(full_name: &str, level: u8) -> Option<Scenario> {
                     Action::Settle0(2),
                     Action::DropAll,
                 ];
-                if name.contains("-prio") {
+                if name.contains("-hiprio") {
+                    // node 1 (a log as long as node 2's, ending in an older term) has the higher
+                    // election priority; node 3 is gone for good and node 2 restarted: the only
+                    // electable node (2) is refused by node 1 for its priority, node 1 by node 2
+                    // for its log
+                    s.prefix.push(Action::SetPrio(1, 5));
+                    s.prefix.push(Action::Crash(3, 9));
+                    s.prefix.push(Action::Crash(2, 9));
+                    s.prefix.push(Action::Restart(2));
+                    s.down_forever = vec![3];
+                } else if name.contains("-prio") {
                     // node 1 holds two local-only term-1 entries (a longer log ending in an
                     // older term); the voters 2 and 3 have a higher priority than node 1
                     s.prefix.insert(5, Action::Propose(1, 0));
@@ -1401,6 +1411,24 @@ pub fn build(full_name: &str, level: u8) -> Option<Scenario> {
                 s.prefix.push(Action::Crash(2, 9));
                 s.down_forever = vec![2];
             }
+            if n.contains("-stall") {
+                // node 2 is gone for good; follower 3 persisted the leader's newest entry, its
+                // acknowledgement was lost, and its application asks for a snapshot: the request
+                // index is an entry that cannot commit without node 3
+                s.prefix = vec![
+                    Action::Timeout(1),
+                    Action::Settle,
+                    Action::Crash(2, 9),
+                    Action::Propose(1, 0),
+                    Action::Settle0(1),
+                    Action::Deliver(1, 3),
+                    Action::Settle0(3),
+                    Action::Drop(3, 1),
+                    Action::RequestSnap(3),
+                    Action::Settle0(3),
+                ];
+                s.down_forever = vec![2];
+            }
             if n.contains("-prec") {
                 // pre-vote on. Follower 2 asked for a snapshot while the leader's append of entry
                 // 3 to it was still in flight; the leader's answer (a snapshot at index 2) is in
@@ -1481,7 +1509,7 @@ pub fn build(full_name: &str, level: u8) -> Option<Scenario> {
             s.clients_at = vec![1];
             s.crashable = vec![3];
             s.timeoutable = vec![3];
-            if n.contains("-prec") {
+            if n.contains("-prec") || n.contains("-stall") {
                 s.crashable = vec![];
                 s.timeoutable = vec![];
             }
